@@ -436,11 +436,86 @@ def h3(rep, src):
         rep.violation("H3", "is_suffix_of@compare", "the pairwise test is not equality of the two zipped components: %s" % show(clo, 60), where)
 
 
+def h4(rep, src):
+    """USING / NATURAL resolution in sql/relation.rs: which duplicate columns are merged into one unqualified name."""
+    from .flow import Taint
+
+    rep.rule(
+        "H4",
+        "try_from_join coalesces (makes resolvable without qualifier) exactly the columns the SQL names: under JoinConstraint::Using(v) the coalesced list derives from v only, "
+        "under Natural from the columns common to both inputs, and under ON / no constraint nothing is coalesced; arms are literal JoinOperator(JoinConstraint) patterns without guards",
+        floor=3,
+        necessary="coalescing a common column that USING does not list binds an unqualified reference to it silently to the left candidate instead of refusing it as ambiguous",
+    )
+    f = src.one_fn(name="try_from_join", file="sql/relation.rs")
+    ms = [m for m in find(f.body, "match") if "join_operator" in show(m["e"], 0)]
+    if len(ms) != 1:
+        rep.undecidable("H4", "try_from_join@match", "expected one match over ast_join.join_operator, found %d" % len(ms), f.where())
+        return
+    m = ms[0]
+    seen_kinds = set()
+    for a in m["arms"]:
+        where = "src/sql/relation.rs:%d" % a["l"]
+        cases = a["pat"]["cases"] if a["pat"]["k"] == "or" else [a["pat"]]
+        kinds = set()
+        bound = set()
+        opaque = False
+        for c in cases:
+            if c["k"] == "wild":
+                kinds.add("_")
+                continue
+            if c["k"] != "tuplestruct" or not c["elems"]:
+                opaque = True
+                continue
+            inner = c["elems"][0]
+            if inner["k"] == "tuplestruct" and inner["path"]["segs"][-2:-1] == ["JoinConstraint"]:
+                kinds.add(inner["path"]["segs"][-1])
+                bound |= set(pat_binds(inner))
+            elif inner["k"] == "path" and inner["segs"][-2:-1] == ["JoinConstraint"]:
+                kinds.add(inner["segs"][-1])
+            elif inner["k"] == "wild":
+                kinds.add("any:" + c["path"]["segs"][-1])
+            else:
+                opaque = True
+        calls = [x for x in find(a["body"], "mcall") if x["m"] == "remove_duplicates_and_coalesce"]
+        key = "try_from_join@" + "|".join(sorted(kinds)) if kinds else "try_from_join@?"
+        rep.instance("H4", key, {"constraints": sorted(kinds), "binds": sorted(bound), "coalesces": bool(calls), "where": where})
+        if a.get("guard") or opaque:
+            if calls:
+                rep.undecidable("H4", key, "a coalescing arm whose pattern is not a literal JoinOperator(JoinConstraint) (guard or binding of the whole constraint): cannot tell which columns are merged", where)
+            continue
+        seen_kinds |= kinds
+        if "Using" in kinds and "Natural" in kinds:
+            rep.violation("H4", key, "USING and NATURAL share one arm: both coalesce the same column list", where)
+            continue
+        if "Using" in kinds:
+            if len(calls) != 1 or len(bound) != 1:
+                rep.violation("H4", key, "the USING arm does not coalesce the listed columns", where)
+                continue
+            v = sorted(bound)[0]
+            t = Taint({v: "using"})
+            t.run_block(a["body"] if a["body"]["k"] == "block" else {"k": "block", "l": a["l"], "stmts": [{"k": "expr", "e": a["body"], "semi": False, "l": a["l"]}]})
+            arg = calls[0]["args"][0]
+            lab = t.labels(arg)
+            others = [x for x in find(arg, "mcall") if x["m"] in ("fields", "schema", "left", "right")]
+            if "using" not in lab or others:
+                rep.violation("H4", key, "the columns coalesced under USING are `%s`, not the listed identifiers `%s`" % (show(arg, 80), v), where)
+        elif "Natural" in kinds:
+            if len(calls) != 1:
+                rep.violation("H4", key, "the NATURAL arm does not coalesce the common columns", where)
+        else:
+            if calls:
+                rep.violation("H4", key, "columns are coalesced for a join without USING / NATURAL", where)
+    for need in ("Using", "Natural"):
+        if need not in seen_kinds:
+            rep.violation("H4", "try_from_join@" + need, "no literal arm for JoinConstraint::%s" % need, f.where())
+
+
 def run(rep):
     rep.explanation = (
         "Static arm-table check of hierarchy.rs (syn AST of the current tree). Decides: the suffix search counts matches with an absorbing `More` and only a single match "
         "is returned (H1, by simulating the fold closure and the Found->Option conversion on the three states); the exact lookup is tried first and get/Index/and_then go through it (H2); "
-        "the suffix predicate compares both paths from their last component with `all` (H3). Does NOT decide the lookup law over all maps and paths as a whole, nor which column sets "
+        "the suffix predicate compares both paths from their last component with `all` (H3); USING coalesces only the listed columns and NATURAL the common ones (H4). Does NOT decide the lookup law over all maps and paths as a whole, nor which column sets "
         "reach the lookup from SQL (joins, aliases, CTE shadowing)."
     )
     src = Src(facts.src_facts())
@@ -452,5 +527,6 @@ def run(rep):
     else:
         h1(rep, src, gkv, fold, pred or "is_suffix_of")
     h3(rep, src)
+    h4(rep, src)
     rep.assume("rustc accepts the tree (the syn facts are parsed from the same files the build uses)")
     rep.assume("BTreeMap in hierarchy.rs is std::collections::BTreeMap (no local item of that name: checked)")
